@@ -431,7 +431,7 @@ def slice_get(ex, st, fr, name, args, dty):
     return None
 
 
-@model(r'core::slice::<impl \[(u8|T)\]>::len$|core::str::<impl str>::len$|(^|::)(Vec|String)(<.*>)?::len$')
+@model(r'core::slice::<impl \[(u8|T)\]>::len$|core::str::<impl str>::len$')
 def slice_len(ex, st, fr, name, args, dty):
     b = slice_of(ex, st, args[0])
     if b is None:
